@@ -196,7 +196,8 @@ func c06Conversation(addr string, cid int, seed uint64, nreq int, mode int, wrap
 	if cid%7 == 3 {
 		// a phone field with non-decimal nibbles (a..f): the server renders it in lower-case hex; that string is the right auth code,
 		// the same letters in another case are not
-		for i := len(t.BCD) - 4; i < len(t.BCD); i++ {
+		// (the low three bytes keep the digits that make this connection's phone unique)
+		for i := len(t.BCD) - 5; i < len(t.BCD)-3; i++ {
 			t.BCD[i] = []byte{0x1a, 0x2b, 0x3c, 0xd4, 0xe5, 0xf6, 0xab, 0xcd}[(cid+i)%8]
 		}
 		t.Phone = ref.PhoneString(t.BCD)
